@@ -266,6 +266,18 @@ func loadPage(auto bool, by ptttype.BSortBy, isAsc bool, n int, kw []byte, cstr 
 		var sums []*bbs.BoardSummary
 		var next string
 		var err error
+		if detailsMode {
+			var dets []*bbs.BoardDetail
+			dets, next, err = bbs.LoadGeneralBoardDetails(sysop, cstr, n, isAsc, by)
+			if err != nil {
+				return errStr(err)
+			}
+			for _, d := range dets {
+				r.bids = append(r.bids, int(d.Bid))
+			}
+			r.next = next
+			return ""
+		}
 		if auto {
 			sums, next, err = bbs.LoadAutoCompleteBoards(sysop, cstr, n, string(kw), isAsc)
 		} else {
@@ -405,6 +417,32 @@ func do(line string) {
 			return strconv.Itoa(int(idx))
 		})
 		judgeAuto(line, out, isAsc, kw)
+	case (ws[0] == "dpage" && len(ws) == 5) || (ws[0] == "dwalk" && len(ws) == 4):
+		detailsMode = true
+		defer func() { detailsMode = false }()
+		by, ok1 := parseBy(ws[1])
+		isAsc, ok2 := parseDir(ws[2])
+		n, ok3 := parseInt(ws[3])
+		if !ok1 || !ok2 || !ok3 {
+			bad()
+			return
+		}
+		if ws[0] == "dwalk" {
+			pages, out := walk(false, by, isAsc, n, nil)
+			judgeWalk(line, out, false, by, isAsc, n, nil, pages)
+			return
+		}
+		c, ok4 := parseCursor(ws[4])
+		if !ok4 {
+			bad()
+			return
+		}
+		r := loadPage(false, by, isAsc, n, nil, c.str(by))
+		out := r.out
+		if out == "" {
+			out = "ok " + showBids(r.bids) + " next=" + showNext(by, r.next)
+		}
+		judgePage(line, out, false, by, isAsc, n, nil, c, r)
 	case ws[0] == "page" && len(ws) == 5:
 		by, ok1 := parseBy(ws[1])
 		isAsc, ok2 := parseDir(ws[2])
